@@ -26,14 +26,17 @@ def gen_case(rng):
     if identity:
         img["size"] = [w, 2 * h]
         img["mode"] = rng.choice(["RGBA", "RGBA", "RGB"])
-        img["alphas"] = [0, 255, 255]
+        # bilevel alpha, or partial alpha with / without fully transparent pixels (the expected
+        # composite over the background is computed exactly by identity_check)
+        img["alphas"] = rng.choice([[0, 255, 255], [0, 255, 255], [0, 255, 128, 1, 254, 37, 200],
+                                    [255, 128, 200], [204], [254, 1, 127, 128], [0, 128]])
     if bg and rng.random() < 0.6:
         img["bg_pixel"] = bg  # pixels equal to the terminal background (kitty work-around)
     alpha = rng.choice([None, "#", "#102030"] + THRESHOLDS * 2)
     return {"style": "block", "cells": [w, h], "img": img, "alpha": alpha,
             "args": {"split_cells": rng.random() < 0.3}, "on_kitty": rng.random() < 0.4, "term_bg": bg,
-            "want_source_pixels": (identity and not isinstance(alpha, str)) or kind == "uniform",
-            "identity": identity and not isinstance(alpha, str)}
+            "want_source_pixels": identity or kind == "uniform",
+            "identity": identity}
 
 
 def corpus():
@@ -54,26 +57,49 @@ def corpus():
     return cs
 
 
+def composite(s, a, d):
+    """Pillow's alpha_composite of an (s, alpha a) channel over an opaque channel d: the exact
+    value (s*a + d*(255-a)) / 255 rounded to nearest (never a tie: 255 is odd) — established by
+    an exhaustive sweep of all 2^24 (s, d, a) against Image.alpha_composite."""
+    return (2 * (s * a + d * (255 - a)) + 255) // 510
+
+
 def identity_check(case, res):
-    """Pillow-independent: at render resolution, opaque source pixels keep their colour and
-    the alpha classes are those of the threshold."""
+    """Pillow-independent: at render resolution every pixel handed to the renderer is the
+    source pixel — opaque ones unchanged, partially transparent ones composited over the
+    requested background colour ('#rrggbb'), or over the terminal background / black when it
+    is unknown ('#' and thresholded transparency) — and the alpha classes are those of the
+    threshold; disabling transparency ignores alpha."""
     if not case.get("identity") or "src" not in res or "rgb" not in res:
         return None
     src, rgb, a = res["src"], res["rgb"], res["a"]
     if len(src) != len(rgb):
         return f"pixel count {len(rgb)} != source {len(src)}"
     alpha = case.get("alpha")
-    thr = None if alpha is None else round(float(alpha) * 255)
     amode = res.get("alpha_mode", False)
+    has_alpha = case["img"]["mode"] == "RGBA"
+    term_bg = case.get("term_bg") or [0, 0, 0]
+    if isinstance(alpha, str):
+        under = term_bg if alpha == "#" else [int(alpha[i:i + 2], 16) for i in (1, 3, 5)]
+        thr = None
+    elif alpha is None or not has_alpha:
+        under, thr = None, None
+    else:
+        under, thr = term_bg, round(float(alpha) * 255)
     for k, (s, c, av) in enumerate(zip(src, rgb, a)):
-        if s[3] == 255 and list(c) != list(s[:3]):
-            return f"opaque pixel {k} has colour {c}, source {s[:3]}"
-        if thr is not None and amode:
-            want_t = s[3] < thr
-            if want_t != (av == 0):
-                return f"pixel {k} alpha {s[3]} threshold {thr}: transparent={av == 0}"
-        if (thr is None or not amode) and av == 0:
-            return f"pixel {k} transparent although transparency is disabled/unsupported"
+        if thr is not None:
+            if not amode:
+                return "thresholded transparency on an image with alpha did not keep an alpha channel"
+            if (s[3] < thr) != (av == 0) or av not in (0, 255):
+                return f"pixel {k} alpha {s[3]} threshold {thr}: alpha class given to the renderer {av}"
+            if av == 0:
+                continue  # shown as the terminal's own background whatever its colour
+        elif av != 255:
+            return f"pixel {k} has alpha {av} although transparency is disabled / a background colour was requested"
+        want = list(s[:3]) if under is None or not has_alpha else [composite(s[j], s[3], under[j]) for j in range(3)]
+        if list(c) != want:
+            return (f"pixel {k}: source {s} over {under} must show {want}, the renderer was given {list(c)} "
+                    f"(alpha setting {alpha!r})")
     return None
 
 
@@ -140,8 +166,8 @@ def run(ctx):
         "rule": "corpus (9 modes x 3 alpha settings + hand-made run/alpha/background cases) + random images generated for run "
                 "structure (colour runs, alpha flips inside runs, single-pixel changes, uniform, pixels equal to the terminal "
                 "background), all nine modes, thresholds {0, 1/255, .5, 254/255, .999}, '#', hex, None; terminal background "
-                "known/unknown; kitty work-around on/off; split cells on/off; 35% at render resolution with bilevel alpha "
-                "(Pillow-independent identity check). Non-trivial: >= 2 columns and more colour runs than lines; distinct by "
+                "known/unknown; kitty work-around on/off; split cells on/off; 35% at render resolution with bilevel or partial alpha "
+                "(Pillow-independent identity check incl. the exact composite over the background). Non-trivial: >= 2 columns and more colour runs than lines; distinct by "
                 "(image, cells, alpha, kitty, background).",
         "samples": [R.describe(c) for c in cases[:1] + cases[-3:]],
         "histogram": hist,
